@@ -5,6 +5,7 @@ go 1.26.0
 require (
 	github.com/256dpi/lungo v0.0.0
 	github.com/anishathalye/porcupine v1.3.0
+	go.mongodb.org/mongo-driver v1.17.9
 	golang.org/x/tools v0.50.0
 )
 
